@@ -26,6 +26,7 @@
  */
 
 #include "ares_private.h"
+#include "event/ares_event.h"
 
 #ifdef HAVE_STRINGS_H
 #  include <strings.h>
@@ -1345,6 +1346,17 @@ ares_status_t ares_send_query(ares_server_t *requested_server,
 
   query->conn = conn;
   conn->total_queries++;
+
+  /* The event thread computes how long it may sleep from the earliest deadline
+   * at the time it goes to sleep.  If this query's deadline is now the earliest
+   * one, wake the thread so it does not sleep past it (or forever, when it
+   * found no deadline at all and the connection was already being watched so
+   * no socket state change wakes it either). */
+  if (channel->optmask & ARES_OPT_EVENT_THREAD &&
+      channel->sock_state_cb_data != NULL &&
+      ares_slist_first_val(channel->queries_by_timeout) == query) {
+    ares_event_thread_wake(channel->sock_state_cb_data);
+  }
 
   /* We just successfully enqueud a query, see if we should probe downed
    * servers. */
